@@ -97,8 +97,17 @@ def scenarios():
                 for reserved in ("result", "OLD"):
                     yield mk("param-" + reserved, reserved, "1", "call" if has_post else "none", "TypeError" if has_post else None)
                     if not single:
-                        yield mk("param-default-" + reserved, "x, {}=3".format(reserved), "1", "call" if has_post else "none",
-                                 "TypeError" if has_post else None)
+                        st, ex = ("call", "TypeError") if has_post else ("none", None)
+                        yield mk("param-default-" + reserved, "x, {}=3".format(reserved), "1", st, ex)
+                        # ... in every parameter position Python offers, bound by the call or not
+                        yield mk("param-kwonly-default-" + reserved, "x, *, {}=None".format(reserved), "1", st, ex)
+                        yield mk("param-kwonly-" + reserved, "x, *, {}".format(reserved), "1, {}=2".format(reserved), st, ex)
+                        yield mk("param-posonly-" + reserved, "{}, /, x=0".format(reserved), "1", st, ex)
+                        yield mk("param-after-varargs-" + reserved, "x, *rest, {}=None".format(reserved), "1, 2, 3", st, ex)
+                        yield mk("param-varargs-bound-" + reserved, "x, *{}".format(reserved), "1, 2", st, ex)
+                        yield mk("param-varargs-unbound-" + reserved, "x, *{}".format(reserved), "1", st, ex)
+                        yield mk("param-varkw-bound-" + reserved, "x, **{}".format(reserved), "1, other=2", st, ex)
+                        yield mk("param-varkw-unbound-" + reserved, "x, **{}".format(reserved), "1", st, ex)
                 if not single:
                     # reserved names as keyword arguments of the call
                     for reserved in ("_ARGS", "_KWARGS"):
@@ -197,7 +206,12 @@ def run(w) -> None:
                     w.violation("C19/legal-program-body-not-run/" + tag.split("/")[0], "legal program {} on {} did not run its body".format(tag, kind), case)
                 continue
             if got_stage == "none":
-                w.violation("C19/misuse-silently-accepted/" + tag.split("/")[0], "misuse {} on {} ({}DBC) was silently accepted (expected {} at {})".format(
+                base_tag = tag.split("/")[0]
+                key = "C19/misuse-silently-accepted/" + base_tag
+                if base_tag.startswith(("param-varkw-", "param-varargs-")) and base_tag.endswith(("-result", "-OLD")):
+                    # mechanism: the conflict is looked for among the resolved arguments only; a variable parameter is not among them
+                    key = "C19/variadic-parameter-named-result-or-OLD-accepted"
+                w.violation(key, "misuse {} on {} ({}DBC) was silently accepted (expected {} at {})".format(
                     tag, kind, "" if dbc else "no ", exc, stage), case)
                 continue
             w.count("rejections_observed")
